@@ -58,6 +58,19 @@ theorem C14_only_cancelled_or_dead_discarded {s : Sim} {e : Ev} {rest : List Ev}
   · intro hd
     rw [exec_log]; unfold entryOf; rw [if_pos hd]; simp [popped]
 
+/-- Once cancelled, never executed: an event that is cancelled while pending is not in the execution log of
+    any state reachable afterwards, whatever further scheduling, cancelling and running happens. -/
+theorem C14_cancelled_never_executes {s s' : Sim} (h : Reachable s) {e : Ev} (he : e ∈ s.pending)
+    (hc : e.cancelled = true) (hr : ReachableFrom s s') : e.id ∉ logIds s'.log :=
+  dead_not_logged (reachable_inv (reachableFrom_reachable h hr)).2.1 (dead_stays (Or.inl ⟨e, he, rfl, hc⟩) hr)
+
+/-- `cancel_event` marks every pending event carrying that handle. -/
+theorem C14_cancel_marks (s : Sim) (k : Nat) {e : Ev} (he : e ∈ s.pending) (hu : e.isStep = false) (ht : e.tag = k) :
+    ∃ e' ∈ (cancelTag s k).pending, e'.id = e.id ∧ e'.cancelled = true := by
+  refine ⟨{ e with cancelled := true }, ?_, rfl, rfl⟩
+  simp only [cancelTag, List.mem_map]
+  exact ⟨e, he, by simp [hu, ht]⟩
+
 /-- A cancelled event is never handed out for execution. -/
 theorem C14_cancelled_never_popped {l : List Ev} {e : Ev} {rest : List Ev}
     (hp : popLive l = some (e, rest)) : e.cancelled = false := (popLive_decomp hp).2
